@@ -92,6 +92,13 @@ func Run(o Opts) (*Result, error) {
 	ctx, cancel := context.WithTimeout(context.Background(), o.Timeout)
 	defer cancel()
 	cmd := exec.CommandContext(ctx, "tlc", args...)
+	const jar = "/opt/veriftools/tla/tla2tools.jar"
+	if _, err := os.Stat(jar); err == nil && strings.Contains(o.JavaOpts, "-Xss") {
+		// the stack of the main thread (initial states, their invariants) is sized by the launcher from
+		// its command line only, not from JAVA_TOOL_OPTIONS: call java the way the tlc wrapper does
+		jargs := append(strings.Fields(o.JavaOpts), "-XX:+UseParallelGC", "-cp", jar+":/opt/veriftools/tla/CommunityModules-deps.jar", "tlc2.TLC")
+		cmd = exec.CommandContext(ctx, "java", append(jargs, args...)...)
+	}
 	cmd.Dir = dir
 	cmd.SysProcAttr = &syscall.SysProcAttr{Setpgid: true}
 	cmd.Cancel = func() error { return syscall.Kill(-cmd.Process.Pid, syscall.SIGKILL) }
